@@ -78,6 +78,28 @@ def P(tag):
     sys.stdout.write('@%s|%s|%s\n' % (tag, threading.current_thread().name, k.get_name() if k is not None else '-'))
 
 
+def _who():
+    import asyncio
+    try:
+        k = asyncio.current_task()
+    except RuntimeError:
+        k = None
+    return threading.current_thread().name, (k.get_name() if k is not None else '-')
+
+
+def PA(tag):
+    """First half of a probe line written in TWO pieces ('%tag|thread name|' now, 'task name\\n' by PB): between the two
+    another task of the same thread (or another thread) runs and writes.  The line in progress belongs to the trace that
+    started it; what the others write meanwhile belongs to them (seeds C06-5 / C13-6)."""
+    import sys
+    sys.stdout.write('%%%s|%s|' % (tag, _who()[0]))
+
+
+def PB(tag):
+    import sys
+    sys.stdout.write('%s\n' % _who()[1])
+
+
 # ---------------------------------------------------------------- responder with withholding (runs in the worker)
 
 _uid = [0]
@@ -364,6 +386,9 @@ class Gen:
             body.append(f'await {a}()')
         else:
             body.append('await asyncio.sleep(0)')
+        if rng.random() < 0.5:
+            # a line written in two pieces with a suspension in between (another task of this thread may write meanwhile)
+            body += [f"PA('{tag}')", 'await asyncio.sleep(0)', f"PB('{tag}')"]
         body.append(f"P('{tag}')")
         self.funcs.append((tag, [f'async def {tag}():'] + ['    ' + b for b in body]))
         return tag
@@ -372,7 +397,12 @@ class Gen:
         rng = self.rng
         tag = self.tag('t')
         body = [f"P('{tag}')", f'y = {rng.randint(0, 9)}']
+        split = rng.random() < 0.3
+        if split:
+            body.append(f"PA('{tag}')")         # the line stays open while this thread starts threads / runs event loops
         body += self.ops(depth + 1)
+        if split:
+            body.append(f"PB('{tag}')")
         body.append(f"P('{tag}')")
         self.funcs.append((tag, [f'def {tag}():'] + ['    ' + b for b in body]))
         return tag
@@ -416,7 +446,7 @@ class Gen:
 def gen_program(rng, max_threads, max_tasks):
     g = Gen(rng, max_threads, max_tasks)
     main = ["P('M')"] + g.ops(0) + ["P('M')"]
-    lines = ['import sys, threading, asyncio', 'from harness.props.c06 import P',
+    lines = ['import sys, threading, asyncio', 'from harness.props.c06 import P, PA, PB',
              f'sys.setswitchinterval({rng.choice([1e-6, 1e-5, 1e-4, 5e-3])})']
     unit_of_line = {}
     for tag, fl in g.funcs:
@@ -435,7 +465,7 @@ def gen_scenario_job(rng):
     """Fixed shape, random details: main starts w1 and w3; w1 later starts w2; every unit calls traced helper functions
     (plain, raising).  One unit is the victim: it is stepped with `step` and its first prompt at the chosen kind of event
     ('call' = the `--Call--` stop after `step`, 'return', 'exception', 'line') is withheld."""
-    L = ['import sys, threading', 'from harness.props.c06 import P',
+    L = ['import sys, threading', 'from harness.props.c06 import P, PA, PB',
          f'sys.setswitchinterval({rng.choice([1e-6, 1e-4, 5e-3])})',
          'def g(n):', '    return n + 1',
          'def boom():', "    raise ValueError('boom')",
@@ -479,7 +509,7 @@ def gen_scenario_job(rng):
 def gen_barrier_job(rng):
     """n = 2 or 3 threads that stop at the same time, several times (see BarrierPolicy)."""
     n = rng.choice([2, 2, 3])
-    L = ['import sys, threading', 'from harness.props.c06 import P',
+    L = ['import sys, threading', 'from harness.props.c06 import P, PA, PB',
          f'sys.setswitchinterval({rng.choice([1e-6, 1e-6, 1e-4, 5e-3])})', 'def g(n):', '    return n + 1']
     units = {}
     for i in range(n):
@@ -524,19 +554,33 @@ def gen_job(rng, max_threads, max_tasks):
 # ---------------------------------------------------------------- ground truth, labels, oracle
 
 PROBE_RE = re.compile(r'^@([A-Za-z0-9]+)\|([^|]+)\|(.+)$')
+SPLIT_RE = re.compile(r'^%([A-Za-z0-9]+)\|([^|]+)\|([^|%@]+)$')          # a line written in two pieces (PA, PB)
+# in the REAL stdout the pieces of different actors interleave: whole-line probes are found wherever they start
+REAL_PROBE_RE = re.compile(r'@([A-Za-z0-9]+)\|([^|\n%@]+)\|([^|\n%@]+)\n')
+REAL_SPLIT_RE = re.compile(r'%([A-Za-z0-9]+)\|')
+
+
+def probe_match(text):
+    """a REPORTED line -> (tag, (thread name, task name), split?) or None"""
+    t = text.rstrip('\n')
+    m = PROBE_RE.match(t)
+    if m and '%' not in t and t.count('@') == 1:
+        return m.group(1), (m.group(2), m.group(3)), False
+    m = SPLIT_RE.match(t)
+    if m:
+        return m.group(1), (m.group(2), m.group(3)), True
+    return None
 
 
 def truth_of(res):
     """tag -> (thread name, task name or '-') from the program's REAL stdout."""
     tr = {}
     clash = []
-    for line in (res.get('stdout') or '').splitlines():
-        m = PROBE_RE.match(line)
-        if m:
-            tag, who = m.group(1), (m.group(2), m.group(3))
-            if tag in tr and tr[tag] != who:
-                clash.append(tag)
-            tr[tag] = who
+    for m in REAL_PROBE_RE.finditer(res.get('stdout') or ''):
+        tag, who = m.group(1), (m.group(2), m.group(3))
+        if tag in tr and tr[tag] != who:
+            clash.append(tag)
+        tr[tag] = who
     return tr, clash
 
 
@@ -588,10 +632,10 @@ def build_case(job, res):
             if a is not None:
                 rest_l.append(('End', a)); rest_o.append(('OEnd', e['trace_no']))
         elif ty == 'OnWriteStdout':
-            m = PROBE_RE.match(e.get('text', '').rstrip('\n'))
+            m = probe_match(e.get('text', ''))
             if m:
                 payload += 1
-                a = names.actor((m.group(2), m.group(3)))
+                a = names.actor(m[1])
                 rest_l.append(('Emit', a, payload)); rest_o.append(('OEv', e['trace_no'], payload))
         elif ty == 'OnStartPrompt':
             tag = units.get(e.get('line_no'))
@@ -700,24 +744,30 @@ def oracle(job, res):
             starts[e['trace_no']] = (e['thread_no'], e['task_no'])
     # attribution of output lines: each actor (ground truth) <-> exactly one trace number
     trace_of_actor, actor_of_trace = {}, {}
-    seen_lines = []
+    seen_lines, seen_split = [], []
     for e in events:
         if e['type'] != 'OnWriteStdout':
             continue
-        m = PROBE_RE.match(e.get('text', '').rstrip('\n'))
+        m = probe_match(e.get('text', ''))
         if not m:
+            # the generated programs write nothing but probe lines: a reported line that is none was put together
+            # from pieces written by different actors
+            bad.append(('output-line-garbled', f'the reported line {e.get("text")!r} (trace {e["trace_no"]}) is not a line any thread or task wrote'))
             continue
-        seen_lines.append(e['text'].rstrip('\n'))
-        who, n = (m.group(2), m.group(3)), e['trace_no']
+        (seen_split if m[2] else seen_lines).append(m[0] if m[2] else e['text'].rstrip('\n'))
+        who, n = m[1], e['trace_no']
         if trace_of_actor.setdefault(who, n) != n:
             bad.append(('actor-split', f'output lines of {who} were attributed to traces {trace_of_actor[who]} and {n}'))
         if actor_of_trace.setdefault(n, who) != who:
             bad.append(('trace-shared', f'trace {n} carries output of {actor_of_trace[n]} and of {who}'))
         if n not in starts:
             bad.append(('event-of-unstarted-trace', f'output line {e["text"]!r} carries trace number {n} that never started'))
-    real_lines = [l for l in (res.get('stdout') or '').splitlines() if PROBE_RE.match(l)]
+    real_lines = [m.group(0).rstrip('\n') for m in REAL_PROBE_RE.finditer(res.get('stdout') or '')]
     if sorted(real_lines) != sorted(seen_lines) and not (res.get('timeout') or res.get('error')):
         bad.append(('output-not-attributed', f'{len(real_lines)} probe lines were printed, {len(seen_lines)} were reported as events'))
+    real_split = REAL_SPLIT_RE.findall(res.get('stdout') or '')
+    if sorted(real_split) != sorted(seen_split) and not (res.get('timeout') or res.get('error')):
+        bad.append(('output-not-attributed', f'two-piece lines were started by {sorted(real_split)}, reported whole for {sorted(seen_split)}'))
     # prompts are attributed to the trace of the unit that executes the line
     for e in events:
         if e['type'] == 'OnStartPrompt' and e.get('file_name') == '<string>':
